@@ -62,6 +62,7 @@ var recNames = []string{
 	"origin.example.org", "localhost:8800", "203.0.113.7", "203.0.113.7:8448", "[2001:db8::7]:8448", "[::1]",
 	"dest.example.com", "alt.example.com:443", "origin_bad.example.org", "bad name.example.org", "[2001:db8::7",
 	"a", "exämple.org", "origin.example.org:8448:1",
+	"Origin.Example.ORG:8448", "[2001:DB8::1]:8448", "Matrix.Me.Example", "LOCALHOST",
 }
 var recKeys = []string{"ed25519:1", "ed25519:a_Obwu", "ed25519:auto", "ed25519:k1", "curve25519:x"}
 var recSigs = []string{
@@ -206,7 +207,7 @@ func record(a *hx.Args) error {
 func rehdr(raw json.RawMessage) hx.Result {
 	var l hdrLine
 	if err := json.Unmarshal(raw, &l); err != nil {
-		panic(err)
+		machinery(err.Error())
 	}
 	text := renderToks(l.Toks)
 	got := parseReal(text)
